@@ -26,7 +26,7 @@ def phase_diagrams(run, repo):
     ci = repo.cls(PD)
     n = 0
     for nr, nx in ((1, 1), (2, 3), (3, 2), (3, 4)):
-        for units in (None, 'kJ/mol'):
+        for units, xname in itertools.product((None, 'kJ/mol'), ('P', 'T', 'P_B')):
             I = Interp(repo)
             D = I.D
             rx = [rxn_obj(I, 'rxn%d' % i) for i in range(nr)]
@@ -36,22 +36,21 @@ def phase_diagrams(run, repo):
             T = D.sym('T')
             owner, fn = repo.find_method(ci, 'get_GoRT_1D')
             run.fn(owner.qual + '.get_GoRT_1D')
-            out = I.call_method(pd, 'get_GoRT_1D', [], {'x_name': 'P', 'x_values': xs, 'G_units': units, 'T': T})
-            label = '1D reactions=%d grid=%d units=%s' % (nr, nx, units)
+            given = {} if xname == 'T' else {'T': T}
+            out = I.call_method(pd, 'get_GoRT_1D', [], dict({'x_name': xname, 'x_values': xs, 'G_units': units}, **given))
+            label = '1D reactions=%d grid=%d units=%s%s' % (nr, nx, units, '' if xname == 'P' else ' scan=' + xname)
             n += 1
             if not (isinstance(out, ListV) and len(out) == 2):
                 run.fail('REF.table', 'PhaseDiagram.get_GoRT_1D', 'result', '[%s] unexpected result %s'
                          % (label, show(out)), owner.module, fn)
                 continue
             G, stable = out.items
-            Rfac = (D.sym('kb') * D.sym('Na') * D.sym('U<kJ>') * T) if units else C(1)
-
             def want(i, kw):
                 v = rx[i].opaque_methods['get_delta_GoRT'](I, rx[i], [], kw) / nf.items[i]
-                return v * Rfac
+                return v * (D.sym('kb') * D.sym('Na') * D.sym('U<kJ>') * kw['T']) if units else v
             ok = isinstance(G, ListV) and len(G) == nr and all(
                 isinstance(G.items[i], ListV) and len(G.items[i]) == nx and
-                all(same(G.items[i].items[j], want(i, {'P': xs.items[j], 'T': T})) for j in range(nx))
+                all(same(G.items[i].items[j], want(i, dict(given, **{xname: xs.items[j]}))) for j in range(nx))
                 for i in range(nr))
             run.check(ok, 'REF.table', 'PhaseDiagram.get_GoRT_1D', 'tabulated energies',
                       '[%s] tabulated entry is not the reaction\'s own delta G/RT divided by its normalisation factor'
